@@ -44,7 +44,10 @@ def compare_engines(case):
             rx["doc"] = {k: v for k, v in rx["doc"].items() if k != "hooks"}
             ry["doc"] = {k: v for k, v in ry["doc"].items() if k != "hooks"}
         if norm(rx) != norm(ry) or norm(scrub(x["state"])) != norm(scrub(y["state"])):
-            loopfail = ("raise" in rx) != ("raise" in ry) and _has_loop(story)
+            # C19-F1: a failing @for makes the main engine raise ValueError (its handler returns a 2-tuple where 3 values are
+            # unpacked) while the browser copy shows a marker and carries on - to an output, or to a later failure of its own
+            main_loop_error = rx.get("raise") == "ValueError" and "not enough values to unpack" in str(rx.get("msg", ""))
+            loopfail = _has_loop(story) and ((("raise" in rx) != ("raise" in ry)) or main_loop_error)
             fails.append({"cls": "C19-loop-failure" if loopfail else None, "step": i,
                           "what": f"call {i} ({ops[i]['op']}): main and browser engine disagree "
                                   f"(main {_brief(rx)}, browser {_brief(ry)})"})
